@@ -12,7 +12,7 @@ RULE = (
     "distinct = hash of (family, shape/state); trivial = single node"
 )
 ASSUMPTIONS = ["depth <= 150 (deeper trees hit the interpreter recursion limit in height, which is Python's, not anytree's)"]
-GATES = ["mon.C04.first_read", "C04.shape.widestar", "mon.C04.node", "mon.C04.common", "C04.after_mutation", "C04.height_not_last_child", "C04.cross_tree_common", "C04.after_faulted_history"]
+GATES = ["mon.C04.first_read", "C04.lone_node_after_dropped_tree", "C04.shape.widestar", "mon.C04.node", "mon.C04.common", "C04.after_mutation", "C04.height_not_last_child", "C04.cross_tree_common", "C04.after_faulted_history"]
 
 
 def plan(tier, seed, jobs):
@@ -127,7 +127,7 @@ def run(ctx):
     T = ctx.tier == "thorough"
     idx = 0
     nmax = 10 if T else 7
-    fams = TR.READ_FAMILIES
+    fams = TR.READ_FAMILIES + ("BARE",)
     for n in range(1, nmax + 1):
         cnt = 0
         for par in gen.ordered_trees(n):
@@ -197,9 +197,18 @@ def run(ctx):
         ctx.case((fam, par), sample=case if r % 40 == 0 else None)
         ctx.count("C04.shape." + kind)
         check_universe(ctx, nodes, list(par), gen.children_of(par), case, util, rng=rng)
+        # a brand-new lone node, created after the tree above was used and dropped (its memory may be recycled)
+        del nodes
+        import gc
+
+        gc.collect()
+        lone = TR.build((None,), fam)
+        ctx.count("C04.lone_node_after_dropped_tree")
+        if not check_universe(ctx, lone, [None], [[]], {"family": fam, "par": [None], "after_dropped_tree": list(par)}, util, rng=rng):
+            break
     # mutation histories (some calls aborted by a raising hook): values must be fresh immediately after any mutation
     nh = (30000 if T else 300) // ctx.nshards + 1
-    hfams = ("NM", "LM", "Node", "MIX", "VALNM", "VALLM", "FALSY")
+    hfams = ("NM", "LM", "Node", "MIX", "VALNM", "VALLM", "FALSY", "REPRLM")
     for h in range(nh):
         rng = ctx.rng("hist", h)
         fam = hfams[h % len(hfams)]
